@@ -35,7 +35,9 @@ def gen_case(rng, i, tier):
             q = "m%d:%d:%d:%d:0.5" % (per * 2, per, per // 2, rng.choice([8192, 100000]))
         else:
             q = "m%d:%d:-1:%d:0.0" % (per // 3, per, 512)
-    return ["case %d" % i, "enc %d %d %s %d %d %d" % (ch, rate, q, sig, rng.randint(1, 10 ** 6), n)]
+    # unmanaged streams: a third take their packets straight from vorbis_analysis(vb,&op) instead of through addblock/flushpacket
+    direct = " d" if (not q.startswith("m") and rng.random() < 0.35) else ""
+    return ["case %d" % i, "enc %d %d %s %d %d %d%s" % (ch, rate, q, sig, rng.randint(1, 10 ** 6), n, direct)]
 
 
 def kv(l):
